@@ -113,6 +113,12 @@ impl Hpack {
         hpack_str(out, value.as_bytes());
         if repr == Repr::LiteralIndexed {
             self.dynamic.insert(0, (name.to_string(), value.to_string()));
+            // RFC 7541 4.4: entries are evicted from the end until the table fits 4096 bytes again; an entry
+            // larger than the table empties it and is not added
+            let size = |t: &Vec<(String, String)>| t.iter().map(|(n, v)| n.len() + v.len() + 32).sum::<usize>();
+            while size(&self.dynamic) > 4096 {
+                self.dynamic.pop();
+            }
         }
     }
 
@@ -219,6 +225,9 @@ pub struct Opts {
     pub big_frame: Option<usize>,
     /// announce SETTINGS_MAX_FRAME_SIZE (id 5) above 16384 in the first SETTINGS frame
     pub announce_max_frame: bool,
+    /// add filler headers after the ordinary ones until the header block is about this many bytes, and carry
+    /// it in one HEADERS frame plus as many maximal CONTINUATION frames as it takes (0 = no filler)
+    pub huge_block: usize,
 }
 
 /// Encode the start of an HTTP/2 connection direction. Returns bytes + what was encoded.
@@ -366,6 +375,14 @@ pub fn connection_start(r: &mut Rng, o: &Opts) -> (Vec<u8>, Structure) {
     for _ in 0..r.below(4) {
         list.push((format!("x-{}", token(r, 5)), { let n = r.urange(1, 20); token(r, n) }));
     }
+    if o.huge_block > 0 {
+        let mut have = 0usize;
+        while have < o.huge_block {
+            let n = r.urange(2000, 9000);
+            list.push((format!("x-fill-{}", token(r, 4)), token(r, n)));
+            have += n;
+        }
+    }
 
     // header block
     let mut block: Vec<u8> = vec![];
@@ -419,7 +436,27 @@ pub fn connection_start(r: &mut Rng, o: &Opts) -> (Vec<u8>, Structure) {
         payload.push(r.u8());
     }
     let use_cont = (o.fancy_headers && split_points.len() > 2 && r.chance(1, 3)) || (o.continuation && split_points.len() > 2);
-    if use_cont {
+    if o.huge_block > 0 {
+        // maximal frames: HEADERS carries what fits beside its own fields, every CONTINUATION 16384 bytes
+        let room = 16384 - payload.len() - pad;
+        let first = room.min(block.len());
+        flags &= !F_END_HEADERS;
+        payload.extend_from_slice(&block[..first]);
+        payload.extend(std::iter::repeat(0u8).take(pad));
+        out.extend_from_slice(&frame(1, flags, sid, &payload));
+        st.first_headers_frame_end = out.len();
+        let mut at = first;
+        loop {
+            let end = (at + 16384).min(block.len());
+            let last = end == block.len();
+            out.extend_from_slice(&frame(9, if last { F_END_HEADERS } else { 0 }, sid, &block[at..end]));
+            at = end;
+            if last {
+                break;
+            }
+        }
+        st.uses_continuation = true;
+    } else if use_cont {
         // split at a header boundary (splitting inside a header is C16 territory)
         let cut = split_points[r.urange(0, split_points.len() - 2)];
         flags &= !F_END_HEADERS;
